@@ -1229,7 +1229,7 @@ def mpf_cosh_sinh(x, prec, rnd=round_fast, tanh=0):
         wp += (-mag)
     # Does exp(-2*x) vanish?
     if mag > 10:
-        if 3*(1<<(mag-1)) > wp:
+        if 11*(1<<(mag-3)) > wp:
             # XXX: rounding
             if tanh:
                 return mpf_perturb([fone,fnone][sign], 1-sign, prec, rnd)
